@@ -4,21 +4,28 @@ import os
 import gen_evtimeout
 import gen_evwake
 import gen_locktable
+import gen_reinit
 import threadlib
 import vlib
 
 ID = "C11"
-IMPORTS = ["CaresProps.C11"]
-LEAN_TARGETS = ["CaresProps.C11"]
-GENERATORS = [gen_locktable.gen_locktable, gen_evtimeout.gen_evtimeout, gen_evwake.gen_evwake]
-THEOREMS = vlib.discover_theorems("CaresProps/C11.lean") + [
+IMPORTS = ["CaresProps.C11", "CaresProps.C11b"]
+LEAN_TARGETS = ["CaresProps.C11", "CaresProps.C11b"]
+GENERATORS = [gen_locktable.gen_locktable, gen_evtimeout.gen_evtimeout, gen_evwake.gen_evwake, gen_reinit.gen_reinit]
+THEOREMS = vlib.discover_theorems("CaresProps/C11.lean") + vlib.discover_theorems("CaresProps/C11b.lean") + [
     "Cares.C07b.lockInv_step", "Cares.C07b.lockInv_init", "Cares.C07b.covered_step"]
 TRUSTED = [
     "Lean 4.33.0 kernel; axioms allowed: propext, Classical.choice, Quot.sound",
     "hand-written transition system lean/CaresModel/Event.lean (event thread loop, ares_event_update, wake pipe, channel lock and "
     "event mutex as separate acquisition steps), tied to the code by (a) the lock-event log of the real library under the stress "
     "harness (guarded mutex hook): the channel lock is never requested while the event mutex is held, (b) the timing scenarios of C07",
-    "translator tools/gen_locktable.py (regex over include/ares.h and src/lib): which public entry points take the channel lock",
+    "translator tools/gen_locktable.py (regex over include/ares.h and src/lib): which public entry points take the channel lock, "
+    "and which of them dereference the channel textually before their first lock or after their last unlock",
+    "translator tools/gen_reinit.py: the reload thread's straight-line program (readConfig/lock/flush/clearPending/unlock), whether "
+    "ares_reinit() and ares_destroy() join it while holding the channel lock; conditional or helper-hidden lock calls are an "
+    "extraction failure (committed copy kept, reported in the evidence), not a detected regression",
+    "hand-written transition system lean/CaresModel/Reinit.lean (one application thread calling ares_reinit() any number of times, "
+    "then ares_destroy(); every reload thread ever spawned), parametric in the generated program",
     "harness/h_thread.c (real event thread on epoll/poll/select, loopback UDP server, client threads), tools/threadlib.py",
     "ThreadSanitizer (thorough tier) is supporting evidence for the data-race part, not a proof",
 ]
@@ -27,7 +34,8 @@ ASSUMPTIONS = [
     "one representative client thread in the Lean transition system (client threads only interact through the two locks)",
     "the callback/socket-function setters are used before the channel is shared (documented convention)",
 ]
-EXPLANATION = ("Lock-order, no-lost-wake-up and wait-empty theorems over the Event transition system for every interleaving; "
+EXPLANATION = ("Deadlock-freedom of ares_reinit()/ares_destroy() against the reload thread for every interleaving (program regenerated "
+               "from the source), at most one live reload thread; lock-order, no-lost-wake-up and wait-empty theorems over the Event transition system for every interleaving; "
                "lock-discipline obligation over a table regenerated from the source; stress runs with lock-event log, "
                "exactly-once callback counters, deadlock watchdog; TSan flavour in the thorough tier.")
 RULE = ("stress cases: N client threads issue query/search/cancel/set_servers/reinit/save_options/dup/wait-empty against a live "
@@ -46,8 +54,12 @@ STREAMS = [threadlib.stress_stream("asan"), threadlib.stress_stream("tsan", "thr
 LEVEL_TEXT = ("Proof (partial): Lean 4 theorems over a transition system of the event thread and client threads, for every "
               "interleaving: the only lock nesting is channel lock -> event mutex (no lock-order deadlock; the event thread "
               "always releases its mutex without blocking), no wake-up is lost (C07), wait-empty reports success only with an "
-              "empty queue; plus a decide-obligation over a lock-discipline table regenerated from the source (every public "
-              "entry point that touches the channel locks it). Tie: lock-event log, callback counters and deadlock watchdog of "
+              "empty queue; deadlock-freedom of ares_reinit()/ares_destroy() against the configuration-reload thread for every "
+              "interleaving and any number of reinit calls, with at most one live reload thread, over the reload thread's program "
+              "as re-extracted from the source on every run (kernel-checked deadlock schedule for the variant that clears "
+              "reinit_pending early); plus decide-obligations over a lock-discipline table regenerated from the source (every public "
+              "entry point that touches the channel locks it, and touches it only between its first lock and last unlock - the pinned "
+              "tree's ares_search did not: F45-C11, a TSan-confirmed race, repaired). Tie: lock-event log, callback counters and deadlock watchdog of "
               "the real library under multi-threaded stress on epoll/poll/select. NOT proved: freedom from data races in the C "
               "memory model - observed with ThreadSanitizer only; that is why the claim is partial.")
 LEVEL_NOTE = ("Trusted: Lean kernel; the Event model's faithfulness (lock acquisition order is checked against the real lock log; "
